@@ -1,6 +1,7 @@
 package indepx
 
 import (
+	"fmt"
 	age "github.com/craterdog/go-collection-framework/v4/agent"
 	col "github.com/craterdog/go-collection-framework/v4/collection"
 	"sync"
@@ -78,4 +79,76 @@ func Registry(g int, emit func(Trial)) {
 	probe[[22]int8]("[22]int8", g, emit)
 	probe[[23]int8]("[23]int8", g, emit)
 	probe[[24]int8]("[24]int8", g, emit)
+}
+
+// ---- histories of accessor calls (Registry.tla, MODE = "gen") -----------------
+
+// SeqRec is one sequential history of accessor calls: Types[i] is the type
+// parameter (index into the table below) of the i-th call, Classes[i] the
+// class it returned (numbered by first appearance within the history), Self
+// tells whether an instance made by each returned class names that class.
+type SeqRec struct {
+	Accessor string `json:"accessor"`
+	Types    []int  `json:"types"`
+	Classes  []int  `json:"classes"`
+	Self     bool   `json:"self"`
+}
+
+type marker interface{ VerifMarker() }
+
+type accessor struct {
+	name string
+	get  func() any
+	self func() bool // an instance made by the class reports that class
+}
+
+func accessorsFor[T comparable]() []accessor {
+	return []accessor{
+		{"List", func() any { return col.List[T](nil) }, func() bool { var c = col.List[T](nil); return c.Make().GetClass() == c }},
+		{"Array", func() any { return col.Array[T](nil) }, func() bool { var c = col.Array[T](nil); return c.Make(1).GetClass() == c }},
+		{"Set", func() any { return col.Set[T](nil) }, func() bool { var c = col.Set[T](nil); return c.Make().GetClass() == c }},
+		{"Stack", func() any { return col.Stack[T](nil) }, func() bool { var c = col.Stack[T](nil); return c.Make().GetClass() == c }},
+		{"Queue", func() any { return col.Queue[T](nil) }, func() bool { var c = col.Queue[T](nil); return c.Make().GetClass() == c }},
+		{"Catalog", func() any { return col.Catalog[T, T](nil) }, func() bool { var c = col.Catalog[T, T](nil); return c.Make().GetClass() == c }},
+		{"Map", func() any { return col.Map[T, T](nil) }, func() bool { var c = col.Map[T, T](nil); return c.Make().GetClass() == c }},
+		{"Collator", func() any { return age.Collator[T]() }, func() bool { var c = age.Collator[T](); return c.Make().GetClass() == c }},
+		{"Sorter", func() any { return age.Sorter[T]() }, func() bool { var c = age.Sorter[T](); return c.Make().GetClass() == c }},
+		{"Iterator", func() any { return age.Iterator[T]() }, func() bool { var c = age.Iterator[T](); return c.MakeFromArray([]T{}).GetClass() == c }},
+	}
+}
+
+// the type parameters of the histories: interface types (whose zero value
+// carries no dynamic type) next to concrete ones
+var seqTypes = [][]accessor{
+	accessorsFor[any](),
+	accessorsFor[error](),
+	accessorsFor[fmt.Stringer](),
+	accessorsFor[marker](),
+	accessorsFor[[25]int8](),
+	accessorsFor[*int](),
+}
+
+// NumSeqTypes is the number of type parameters available to the histories.
+func NumSeqTypes() int { return len(seqTypes) }
+
+// Sequences runs every history (types are 1-based indices) on every accessor.
+func Sequences(seqs [][]int, emit func(SeqRec)) {
+	for a := range seqTypes[0] {
+		for _, seq := range seqs {
+			var rec = SeqRec{Accessor: seqTypes[0][a].name, Types: seq, Classes: []int{}, Self: true}
+			var ids = map[any]int{}
+			for _, t := range seq {
+				var acc = seqTypes[t-1][a]
+				var c = acc.get()
+				if _, ok := ids[c]; !ok {
+					ids[c] = len(ids) + 1
+				}
+				rec.Classes = append(rec.Classes, ids[c])
+				if !acc.self() {
+					rec.Self = false
+				}
+			}
+			emit(rec)
+		}
+	}
 }
